@@ -192,7 +192,12 @@ def check(case) -> Outcome:
             edges += [[f"__L{k}", a], [f"__L{k}", b]]
         obs, di, bi = projection(nodes, edges, set(lat) | {f"__L{k}" for k in range(len(g["bi"]))})
         try:
-            r = evans_simplify(graph, latents={V(x) for x in lat} if lat else None)
+            from ..y0util import as_iterable
+
+            # latents is typed Variable | Iterable[Variable] | None: any iterable, a bare singleton, or None
+            lv = [V(x) for x in lat]
+            latents_arg = None if not lat else (lv[0] if len(lv) == 1 and case["pick"] % 3 == 0 else as_iterable(lv, case["pick"] % 7))
+            r = evans_simplify(graph, latents=latents_arg)
         except Exception as e:
             return fail("evans_simplify-raised", exc=repr(e)[:300])
         got = _graph_sets(r)
